@@ -11,19 +11,22 @@ case = d.get("case", d)
 spec, stim = case["spec"], case["stim"]
 cd = S.Compiled(spec)
 print(cd.src[cd.src.index("class Top"):])
-i = cd.vhdl.find("  proc: process")
+i = min([j for j in (cd.vhdl.find("  proc: process"), cd.vhdl.find("combined_reset <=")) if j >= 0] or [-1])
 print(cd.vhdl[i:] if i >= 0 else cd.vhdl)
 print(cd.design.errors)
 sim = cd.sim(); m = Machine(spec)
 resets = case.get("resets")
+rxs = case.get("rx")
+from cv.props import c04 as _c04
 for k, row in enumerate(stim):
     r = resets[k] if resets else None
+    x = rxs[k] if rxs else None
     try:
-        active = r is not None and (bool(r) != bool(spec["ctx"]["reset"].get("active_low")))
+        active = r is not None and _c04._is_active(spec, r, x)
         exp = S.ref_step(m, spec, row, reset=active)
     except Unspecified as u:
         print("unspecified:", u); break
-    S.apply_step(sim, spec, row, r)
+    (_c04._apply(sim, spec, row, r, x) if x is not None else S.apply_step(sim, spec, row, r))
     got = {name: sim.get_str(port) for port, name in S.observables(spec)}
     bad = S.compare(sim, exp, spec)
     st = ""
